@@ -42,7 +42,7 @@ REQUIRED = (
        "judged:chord:curve:circle", "judged:chord:curve:line", "judged:chord:curve:linear", "judged:chord:curve:spline",
        "judged:chord:curve:helix", "judged:chord:curve:discrete", "class:curve:reversed-parameters"]
 )
-REQUIRED = list(REQUIRED) + ["judged:after-moving-both-vertices"]
+REQUIRED = list(REQUIRED) + ["judged:after-moving-both-vertices", "judged:after-transforming-the-edge-item"]
 RULE = (
     "circle: centre 0 or U(-10,10)^3, normal axis-aligned or random with |n| in [0.2,5], R = 10^U(-1,2), start direction "
     "random in the plane; sector theta = +-(0.02, 2pi-0.02) (60% uniform, 25% pi +- 10^U(-4,-0.5), 15% next to the two ends), "
@@ -529,6 +529,39 @@ def _run_arc(ctx, case):
             return
         if abs(len2 - want_len) > 1e-7 * want_len:
             ctx.violation(f"length-not-updated-after-vertex-move:{kind}", f"{where}: length {len2!r} after the move, R*|angle| = {want_len!r}")
+    elif kind in ("origin", "angle") and a_ok and valid and int(R * 1e6) % 3 == 1:
+        _history_item_moved(ctx, kind, where, edge, R, c, p1, p2, mid, want_len)
+
+
+def _history_item_moved(ctx, kind, where, edge, R, c, p1, p2, mid, want_len):
+    """history: the assembled edge item itself is translated / rotated about a foreign axis / scaled through its own methods
+    and read again: it has to describe the moved circle"""
+    sel = int(R * 1e7) % 3
+    d = np.array([0.7, -1.3, 0.4]) * R
+    ax = geom.unit([0.3, -0.5, 0.8])
+    org = np.asarray(c, dtype=float) + np.array([1.1, 0.2, -0.6]) * R
+    if sel == 0:
+        edge.translate(list(d))
+        T, s, what = (lambda x: np.asarray(x, dtype=float) + d), 1.0, "translate"
+    elif sel == 1:
+        edge.rotate(0.9, list(ax), list(org))
+        T, s, what = (lambda x: geom.rotate(x, ax, 0.9, org)), 1.0, "rotate"
+    else:
+        edge.scale(1.7, list(org))
+        T, s, what = (lambda x: org + (np.asarray(x, dtype=float) - org) * 1.7), 1.7, "scale"
+    ctx.count("judged:after-transforming-the-edge-item")
+    ends = [np.asarray(edge.vertex_1.position, dtype=float), np.asarray(edge.vertex_2.position, dtype=float)]
+    if geom.dist(ends[0], T(p1)) > 1e-9 * R * s or geom.dist(ends[1], T(p2)) > 1e-9 * R * s:
+        ctx.violation(f"edge-item-{what}:end-points-did-not-follow:{kind}", f"{where}: {ends} vs {[T(p1).tolist(), T(p2).tolist()]}")
+        return
+    tp2 = np.asarray(edge.third_point.position, dtype=float)
+    len2 = float(edge.length)
+    if not _finite(tp2) or geom.dist(tp2, T(mid)) > 1e-7 * R * s:
+        ctx.violation(f"edge-item-{what}:third-point-off-the-moved-circle:{kind}",
+                      f"{where}: after edge.{what}(...) third_point {tp2.tolist()}, expected {T(mid).tolist()}")
+        return
+    if abs(len2 - want_len * s) > 1e-7 * want_len * s:
+        ctx.violation(f"edge-item-{what}:length:{kind}", f"{where}: after edge.{what}(...) length {len2!r}, R*|angle| = {want_len * s!r}")
 
 
 def _judge_consistency(ctx, label, mech, where, p1, tp, p2, length):
